@@ -76,5 +76,8 @@ func (f *MultipleValueSetq) Call(s *slip.Scope, args slip.List, depth int) slip.
 			s.Set(sym, nil)
 		}
 	}
+	if len(values) == 0 {
+		return nil // no values: every variable is nil and so is the primary value
+	}
 	return values[0]
 }
